@@ -12,19 +12,22 @@ import vlib
 
 def command_events(ctx, thorough):
     import os
-    bindir = ctx.build_cmds(["obiconvert", "obigrep", "obiannotate"])
+    bindir = ctx.build_cmds(["obiconvert", "obigrep", "obiannotate", "obicount", "obisummary"])
     rng = ctx.rng
     d = ctx.path("cmdfiles")
     os.makedirs(d, exist_ok=True)
     lens = {}
     files = []
 
+    cnts = {}
+
     def mkfile(name, ids):
         with open(os.path.join(d, name), "w") as f:
             for i in ids:
                 lens[i] = rng.randint(1, 90)
+                cnts[i] = rng.choice([1, 1, 2, 7])
                 seq = "".join("acgt"[(i + k) % 4] for k in range(lens[i]))
-                f.write(">r%d {\"n\":%d}\n%s\n" % (i, i, seq))
+                f.write(">r%d {\"n\":%d,\"count\":%d}\n%s\n" % (i, i, cnts[i], seq))
         return name
     nrec = 61 if not thorough else 257
     sets = [
@@ -38,6 +41,7 @@ def command_events(ctx, thorough):
              "c.fa": list(range(nrec + 8, nrec + 12)), "one.fa": [nrec + 20]}
     maxid = nrec + 20
     lenvec = [lens.get(i, 0) for i in range(1, maxid + 1)]
+    cntvec = [cnts.get(i, 0) for i in range(1, maxid + 1)]
     cpus = [1, 2, 3, 8, 32] if thorough else [1, 2, 3, 8]
     bss = [1, 2, 3, 7, 1000] if thorough else [1, 2, 7, 1000]
     jobs, evs = [], []
@@ -48,13 +52,34 @@ def command_events(ctx, thorough):
                     argv = [os.path.join(bindir, cmd), "--max-cpu", str(cpu), "--batch-size", str(bs)] + extra + fs
                     jobs.append({"argv": argv, "cwd": d})
                     evs.append({"op": "cmd", "cmd": cmd, "argv": [cmd, "--max-cpu", str(cpu), "--batch-size", str(bs)] + extra + fs,
-                                "cpu": cpu, "bs": bs, "records": [i for f in fs for i in order[f]], "lens": lenvec, "minlen": minlen,
+                                "cpu": cpu, "bs": bs, "files": [order[f] for f in fs], "lens": lenvec, "minlen": minlen,
+                                "hung": 0, "fatal": 0})
+                for cmd in ("obicount", "obisummary"):
+                    argv = [os.path.join(bindir, cmd), "--max-cpu", str(cpu), "--batch-size", str(bs)] + fs
+                    jobs.append({"argv": argv, "cwd": d})
+                    evs.append({"op": "count", "cmd": cmd, "argv": [cmd, "--max-cpu", str(cpu), "--batch-size", str(bs)] + fs,
+                                "cpu": cpu, "bs": bs, "files": [order[f] for f in fs], "lens": lenvec, "counts": cntvec,
                                 "hung": 0, "fatal": 0})
     res = ctx.run_many(jobs, timeout=120)
+    import json as _json
     for e, r in zip(evs, res):
         e["rc"] = r["rc"]
         e["hung"] = 1 if r["timeout"] else 0
-        e["out"] = [int(l[2:].split()[0]) for l in r["out"].decode("utf8", "replace").splitlines() if l.startswith(">r")]
+        text = r["out"].decode("utf8", "replace")
+        if e["op"] == "cmd":
+            e["out"] = [int(l[2:].split()[0]) for l in text.splitlines() if l.startswith(">r")]
+            continue
+        e["variants"] = e["reads"] = e["symbols"] = -1
+        e["out"] = []
+        try:
+            if e["cmd"] == "obicount":
+                kv = dict(l.split(",") for l in text.split() if "," in l)
+                e["variants"], e["reads"], e["symbols"] = int(kv["variants"]), int(kv["reads"]), int(kv["symbols"])
+            else:
+                c = _json.loads(text)["count"]
+                e["variants"], e["reads"], e["symbols"] = int(c["variants"]), int(c["reads"]), int(c["total_length"])
+        except Exception:
+            pass
     return evs
 
 
@@ -85,6 +110,7 @@ def main(ctx):
                   env={"VERIF_CASES": sched}, timeout=1500, deadlock_check=True)
     ctx.tlc_model("Pipeline", "Pipeline_thorough.cfg" if thorough else "Pipeline_quick.cfg", timeout=1500, deadlock_check=True)
     # implementation-shaped state machines of Rebatch / FilterEmpty / DivideOn / Distribute refine the closed forms
+    ctx.tlc_model("CommandMC", "CommandMC.cfg", timeout=900)     # the layers compose: stdout / totals in closed form
     ctx.tlc_model("Combinators", "Combinators_thorough.cfg" if thorough else "Combinators_quick.cfg", timeout=1500, deadlock_check=True)
     a = vlib.read_cases(cases)
     s = vlib.read_cases(sched)
@@ -123,7 +149,8 @@ def main(ctx):
     for r in rejects2:
         ev = events2[r["l"] - 1]
         ctx.violation("C03.cmd.%s.%s" % (ev["cmd"], r["why"]), "cpu=%d bs=%d" % (ev["cpu"], ev["bs"]),
-                      "%s rejected by StreamTrace (%s): rc=%d out=%s" % (" ".join(ev["argv"]), r["why"], ev["rc"], ev["out"][:40]), ev)
+                      "%s rejected by StreamTrace (%s): rc=%d out=%s totals=%s" % (" ".join(ev["argv"]), r["why"], ev["rc"], ev["out"][:40],
+                                                                              [ev.get("variants"), ev.get("reads"), ev.get("symbols")]), ev)
     ctx.samples.append({"command_event": {k: cmd_events[0][k] for k in ("argv", "rc", "out")}})
     ctx.assumptions += ["unbuffered channels: the harness is the only producer, so push order = arrival order",
                         "records are distinct integers; per-record work is keep/drop (value semantics of workers is C05/C16)"]
